@@ -5,25 +5,32 @@
 // group that is dropped unread against the OFFSET / LIMIT budget.  OFFSET and LIMIT count rows that survived the
 // row selection, so a dropped row group consumes exactly its *selected* rows.
 use super::*;
-use crate::file::metadata::{FileMetaData, ParquetMetaData};
-use crate::schema::types::{SchemaDescriptor, Type};
 
 fn stub_format(_a: std::fmt::Arguments<'_>) -> String {
     String::new()
 }
 
-// the frontier's metadata handle is only a struct field here (plan_selected_row_group never reads it): an empty
-// file with an empty root schema, built concretely
-fn frontier(budget: RowBudget, has_predicates: bool) -> RowGroupFrontier {
-    let root = Type::group_type_builder("schema").build().unwrap();
-    let descr = Arc::new(SchemaDescriptor::new(Arc::new(root)));
-    let file = FileMetaData::new(2, 0, None, None, descr, None);
-    RowGroupFrontier {
-        parquet_metadata: Arc::new(ParquetMetaData::new(file, vec![])),
-        row_groups: VecDeque::new(),
-        selection: None,
-        budget,
-        has_predicates,
+// plan_selected_row_group reads only `budget` and `has_predicates`.  The frontier's metadata handle
+// (Arc<ParquetMetaData>) cannot be built inside the model checker at reasonable cost (SchemaDescriptor::new walks
+// the schema tree recursively: no verdict in 600 s even for an empty root), so the frontier is laid out in
+// MaybeUninit storage with every field EXCEPT the metadata handle initialised; that field is never read by the
+// function under test and the storage is never dropped.
+struct FrontierBox(std::mem::MaybeUninit<RowGroupFrontier>);
+
+impl FrontierBox {
+    fn new(budget: RowBudget, has_predicates: bool) -> Self {
+        let mut m = std::mem::MaybeUninit::<RowGroupFrontier>::uninit();
+        let p = m.as_mut_ptr();
+        unsafe {
+            std::ptr::addr_of_mut!((*p).row_groups).write(VecDeque::new());
+            std::ptr::addr_of_mut!((*p).selection).write(None);
+            std::ptr::addr_of_mut!((*p).budget).write(budget);
+            std::ptr::addr_of_mut!((*p).has_predicates).write(has_predicates);
+        }
+        FrontierBox(m)
+    }
+    fn get(&self) -> &RowGroupFrontier {
+        unsafe { &*self.0.as_ptr() }
     }
 }
 
@@ -44,7 +51,8 @@ fn c06_frontier_offset_counts_selected_rows() {
     let row_count: usize = kani::any();
     let selected: usize = kani::any();
     kani::assume(selected >= 1 && selected <= row_count);
-    let f = frontier(budget, false);
+    let fb = FrontierBox::new(budget, false);
+    let f = fb.get();
     let next = NextRowGroup { row_group_idx: 0, row_count, selection: None, budget };
     let d = f.plan_selected_row_group(next, selected);
     let eff_off = if has_offset { off } else { 0 };
@@ -65,7 +73,7 @@ fn c06_frontier_offset_counts_selected_rows() {
     kani::cover!(matches!(d, QueuedRowGroupDecision::Skip { .. }) && selected < row_count && has_offset && off > selected, "partially selected row group swallowed by the offset");
     kani::cover!(matches!(d, QueuedRowGroupDecision::Read(_)) && has_limit && has_offset);
     std::mem::forget(d);
-    std::mem::forget(f);
+    std::mem::forget(fb);
 }
 
 //@ tier: quick
@@ -83,11 +91,12 @@ fn c06_frontier_predicates_force_read() {
     let row_count: usize = kani::any();
     let selected: usize = kani::any();
     kani::assume(selected >= 1 && selected <= row_count);
-    let f = frontier(budget, true);
+    let fb = FrontierBox::new(budget, true);
+    let f = fb.get();
     let next = NextRowGroup { row_group_idx: 0, row_count, selection: None, budget };
     let d = f.plan_selected_row_group(next, selected);
     assert!(matches!(d, QueuedRowGroupDecision::Read(_)), "with predicates the row group is always read");
     kani::cover!(off == Some(7) && lim == Some(0));
     std::mem::forget(d);
-    std::mem::forget(f);
+    std::mem::forget(fb);
 }
